@@ -1,7 +1,7 @@
 (** Extraction of the executable models to OCaml (oracle for the
     correspondence checks).  ExtrOcamlBasic only; N/positive/nat stay the
     extracted inductive types. *)
-From XZ Require Import Base Crc Sha256 Bcj BcjInst CodeWrap C11Lemmas Lzma Lzma2 Xz Formats IndexModel XzNames Outq RcAbs RcDec RcEnc LzmaEnc LzmaRun Lzma2Enc XzEnc.
+From XZ Require Import Base Crc Sha256 Bcj BcjInst CodeWrap CodeWrapHist Lzma Lzma2 Xz Formats IndexModel XzNames Outq RcAbs RcDec RcEnc LzmaEnc LzmaRun Lzma2Enc XzEnc.
 Require Extraction.
 Require Import ExtrOcamlBasic.
 Extraction Language OCaml.
@@ -9,7 +9,7 @@ Set Extraction KeepSingleton.
 Extraction "xzmodel"
   Crc.crc32 Crc.crc64 Sha256.sha256
   BcjInst.bcj_code BcjInst.bcj_whole Bcj.delta_encode Bcj.delta_decode
-  C11Lemmas.hist_run C11Lemmas.hist_start
+  CodeWrapHist.hist_run CodeWrapHist.hist_start
   Lzma2.lzma2_decode Xz.xz_decode_single Xz.xz_decode_concat Formats.alone_decode Formats.lzip_decode Formats.auto_decode
   Formats.lzma1_decode Xz.vli_encode Xz.vli_decode
   IndexModel.m_init IndexModel.m_append IndexModel.m_stream_flags IndexModel.m_stream_padding IndexModel.m_cat
